@@ -108,7 +108,31 @@ func outsideSnapshot(sb string) string {
 	return sb2.String()
 }
 
+// build sets the sandbox up. A server that escapes its directory can take away the ground under this or
+// another worker (the scratch directories of all workers share ancestors): setting up is retried on fresh ground.
 func (w *c03Worker) build(start harness.Tree) {
+	for try := 0; ; try++ {
+		ok := func() (ok bool) {
+			defer func() {
+				if p := recover(); p != nil {
+					if try >= 5 {
+						panic(p)
+					}
+					ok = false
+				}
+			}()
+			w.build1(start)
+			return true
+		}()
+		if ok {
+			return
+		}
+		w.base = harness.NewDir("h")
+		w.sb = ""
+	}
+}
+
+func (w *c03Worker) build1(start harness.Tree) {
 	if w.sb != "" {
 		os.RemoveAll(w.sb)
 	}
